@@ -43,9 +43,9 @@ theorem Root.wfProg {r : Regex} {prog : Prog} {sk : Sk} (R : Root r prog sk) (he
     exact R.lay.root_wfInsn R.ok R.gsc R.ends (by omega) x (Nat.zero_le _) (by omega) i hi
   · exact predicateForRe_wf r hw (emit_startPred' he)
 
-/-- **`emitted_wfProg`.** Every program `emit` produces from a well-formed IR tree satisfying the
+/-- **`emit_wfProg`.** Every program `emit` produces from a well-formed IR tree satisfying the
 IR-level side conditions is structurally well-formed. -/
-theorem emitted_wfProg {r : Regex} {prog : Prog} (he : VM.emit r = .ok prog) (hw : WF r.node)
+theorem emit_wfProg {r : Regex} {prog : Prog} (he : VM.emit r = .ok prog) (hw : WF r.node)
     (hng : numGroups r.node ≤ 65535) (hnl : numLoops r.node ≤ 65535) (hir : irOK r.node = true) :
     VM.wfProg prog = true := by
   obtain ⟨sk, R⟩ := emit_root he hw hng hnl hir
